@@ -12,7 +12,8 @@ LEVEL = 'exploration'
 RULE = ('all dense-time formulas of the stated fragment (<=2 operators, no prev/next/rise/fall, 3-chains) x all step signals whose '
         'break-points are subsets of the half-unit grid on [t0, t0+L] (independent per variable, t0 in {0,1}); the real dense offline '
         'evaluate() output is read as a right-continuous step function and compared with the grid reference at every cell start and '
-        'midpoint of the domain, plus non-decreasing time-stamps and first time-stamp = t0; non-trivial = top operator mattered on the reference')
+        'midpoint of the domain, plus non-decreasing time-stamps and first time-stamp = t0; a large-magnitude layer (values 1e9, 1e9+1, 1e9+2, '
+        'results up to 2e9 with unit steps, compared exactly); non-trivial = top operator mattered on the reference')
 ASSUMPTIONS = ['all variables of a data set start at the same t0 and end at the same time; break-points and bounds on the half-unit grid',
                'the reference is a cell computation validated against itself at two grid resolutions',
                'open finding site:C04-nonzero-start-bounded (t0 > 0 with a bounded temporal operator) is suppressed syntactically']
@@ -120,6 +121,8 @@ def shards(tier):
     deep = [f for f in F.deep_formulas(DENSE_U, DENSE_B) if not F.has_op(f, ('prev', 'next', 'rise'))]
     deep = deep[::5] if tier == 'quick' else deep
     out += [{'formulas': [F.to_json(f) for f in deep[i:i + 2]], 'deep': True} for i in range(0, len(deep), 2)]
+    big = big_formulas()
+    out += [{'formulas': [F.to_json(f) for f in big[i:i + 2]], 'big': True} for i in range(0, len(big), 2)]
     return out
 
 
@@ -140,6 +143,31 @@ def deep_signal_sets(nvars, tier):
     return out[::24] if tier == 'quick' else out[::2]
 
 
+BIG = 1e9
+VBIG_X = (BIG, BIG + 1.0, BIG + 2.0)
+VBIG_Y = (0.0, BIG)
+
+
+def big_formulas():
+    """formulas whose intermediate results reach magnitude 2e9 while neighbouring values differ by one unit (all exactly representable):
+    the step structure of a large-valued signal is as much part of rho as that of a small one"""
+    X, Y = F.X, F.Y
+    s = ('+', X, Y)
+    c = ('const', 2 * BIG + 1.5)
+    p = ('pred', '<=', s, c)
+    return [s, p, ('-', X, Y), ('and', X, Y), ('or', X, Y), ('implies', Y, X), ('since', None, X, Y), ('until', (0, 1), X, Y),
+            ('always', (0, 1), p), ('once', (0, 1), p), ('eventually', (0, 1), s), ('historically', (1, 2), s),
+            ('pred', '>=', X, Y), ('pred', '>', ('+', X, ('const', BIG)), c), ('since', (0, 1), p, ('pred', '>=', Y, F.C1)),
+            ('not', s), ('abs', ('-', Y, X)), ('*', X, ('const', 2.0)), ('and', p, ('pred', '>=', Y, F.C1))]
+
+
+def big_signal_sets(tier):
+    sx = dref.signals_L(2, VBIG_X, 0.0, max_interior=1)
+    sy = dref.signals_L(2, VBIG_Y, 0.0, max_interior=1)
+    out = [{'x': a, 'y': b} for a in sx for b in sy]
+    return out[::3] if tier == 'quick' else out
+
+
 def reference(f, signals, idx=0, hook=None):
     """(times, values) of the reference on the domain; the two-resolution self-check runs on every 4th case"""
     t0 = min(s[0][0] for s in signals.values())
@@ -148,8 +176,9 @@ def reference(f, signals, idx=0, hook=None):
     return times, dref.evaluate(f, signals, times, hook=hook, selfcheck=(idx % 4 == 0))
 
 
-def compare(out, signals, times, ref):
-    """message or None; out = list returned by the dense monitor"""
+def compare(out, signals, times, ref, exact=False):
+    """message or None; out = list returned by the dense monitor.  exact: the values of the data set are chosen so that
+    every intermediate result is exactly representable, and the comparison tolerates nothing"""
     t0 = min(s[0][0] for s in signals.values())
     if not isinstance(out, list) or not out:
         return 'evaluate() returned %r' % (out,)
@@ -160,7 +189,7 @@ def compare(out, signals, times, ref):
         return 'output starts at %r, the common input domain starts at %r (output %r)' % (ts[0], t0, out[:4])
     for t, r in zip(times, ref):
         v = dref.stepval(out, t)
-        if not refsem.same(v, r):
+        if not (v == r if exact and v is not None and r is not None else refsem.same(v, r)):
             return 'value at t=%r is %r, reference rho is %r (output %r)' % (t, v, r, out[:8])
     return None
 
@@ -178,7 +207,7 @@ def check_case(case, spec=None, idx=0, ref=None):
     kind, val = impl.outcome(impl.ct_evaluate, spec, signals)
     if kind != 'ok':
         return 'evaluate() raised %s' % (val,)
-    msg = compare(val, signals, ref[0], ref[1])
+    msg = compare(val, signals, ref[0], ref[1], exact=bool(case.get('exact')))
     if msg is not None:
         t0 = min(s[0][0] for s in signals.values())
         if t0 > 0 and any(F.interval(g) is not None for g in F.subforms(f)):
@@ -210,10 +239,13 @@ def run_shard(shard, tier, res):
             continue
         key = (len(vs), tier)
         if key not in cache:
-            cache[key] = deep_signal_sets(len(vs), tier) if shard.get('deep') else signal_sets(len(vs), tier)
+            cache[key] = big_signal_sets(tier) if shard.get('big') else deep_signal_sets(len(vs), tier) if shard.get('deep') \
+                else signal_sets(len(vs), tier)
         for si, sig in enumerate(cache[key]):
             sig = {v: sig[v if v in sig else 'x'] for v in vs} if vs != ['y'] else {'y': sig['x']}
             case = {'formula': fj, 'spec': text, 'vars': vs, 'signals': {v: [list(p) for p in s] for v, s in sig.items()}}
+            if shard.get('big'):
+                case['exact'] = True
             res.evaluations += 1
             try:
                 ref = reference(f, sig, si)
